@@ -115,7 +115,18 @@ func doMatchIn(expression *grammar.MatchExpression, value reflect.Value) (bool, 
 
 	switch kind := value.Kind(); kind {
 	case reflect.Map:
-		found := value.MapIndex(reflect.ValueOf(matchValue))
+		// The literal has to be read in the map's key type: MapIndex panics
+		// when handed a string for anything but an (unnamed) string key.
+		keyType := value.Type().Key()
+		matchValue, err = getMatchExprValue(expression, keyType.Kind())
+		if err != nil {
+			return false, fmt.Errorf("error getting match value in expression: %w", err)
+		}
+		key := reflect.ValueOf(matchValue)
+		if !key.IsValid() || !key.Type().ConvertibleTo(keyType) {
+			return false, fmt.Errorf("Cannot perform in/contains operations on a map with keys of type %s for selector: %q", keyType, expression.Selector)
+		}
+		found := value.MapIndex(key.Convert(keyType))
 		return found.IsValid(), nil
 
 	case reflect.Slice, reflect.Array:
